@@ -11,7 +11,7 @@ open Sonic.Proofs.Number (allDigits fracLen)
 open Sonic.Spec.Rne (roundRat floorLog2Rat)
 open Sonic.Proofs.Rne (dl round_eq)
 
-theorem zero_case (d0 : Decimal) (t : Token) (h : SetOut d0 t) (hM : t.mantissa = 0) :
+theorem zero_case (d0 : Decimal) (t : Token) (h : SetOutB d0 t) (hM : t.mantissa = 0) :
     decimalToF64 d0 = (specBits t.neg (Sonic.Spec.Rne.round t.neg t.mantissa t.exponent), false) := by
   have hS : (strip (allDigits t)).length = 0 := by
     by_contra hne
@@ -177,17 +177,50 @@ theorem nonzero_case (d0 : Decimal) (t : Token) (h : SetOut d0 t) (hM : 0 < t.ma
           rw [mantissa_step x num den hnum hden hxdef hxlo d2 s2 (-s2 - 1) (-s2 - 1) hinv2 hhi2 (by ring)
             (by rw [max_eq_left (by omega)]) (by omega) hE, hneg2, hneg1, h.neg]
 
+/-- the decimal point was clamped (true position beyond `±10^6`): `±inf` resp. `±0`, as the reference says -/
+theorem clamped_case (d0 : Decimal) (t : Token) (h : SetOutB d0 t) (hM : 0 < t.mantissa)
+    (hc : (dpTrue t > 1000000 ∧ d0.dp = 1000000) ∨ (dpTrue t < -1000000 ∧ d0.dp = -1000000)) :
+    decimalToF64 d0 = (specBits t.neg (Sonic.Spec.Rne.round t.neg t.mantissa t.exponent), false) := by
+  have hSpos : 0 < (strip (allDigits t)).length := by
+    rcases Nat.eq_zero_or_pos (strip (allDigits t)).length with h0 | h0
+    · have := h.mhi; rw [h0] at this; simp at this; omega
+    · exact h0
+  have hdl : dl t.mantissa = (strip (allDigits t)).length := dl_eq _ _ hSpos (h.mlo hSpos) h.mhi
+  have hdpe : t.exponent + (dl t.mantissa : ℤ) = dpTrue t := by
+    rw [hdl, dpTrue, Sonic.Proofs.Number.exponent_eq]; ring
+  have hround := round_eq t.neg t.mantissa t.exponent (by omega)
+  rw [hdpe] at hround
+  have hndne : d0.nd ≠ 0 := by rw [h.nd]; omega
+  have hfault := h.wf.nofault
+  rcases hc with ⟨h1, h2⟩ | ⟨h1, h2⟩
+  · rw [hround, if_pos (by omega)]
+    unfold decimalToF64
+    rw [if_neg hndne, if_pos (by omega)]
+    simp only
+    rw [overflow_bits, hfault, h.neg]; rfl
+  · rw [hround, if_neg (by omega), if_pos (by omega)]
+    unfold decimalToF64
+    rw [if_neg hndne, if_neg (by omega), if_pos (by omega), hfault,
+      assemble_eq d0 0 (-1023) 0 (by omega) (by norm_num), h.neg]
+    unfold specBits sgnBit
+    simp
+
 /-- **`AtofNative` is correct**: on a text that starts with the number token `t` (and whose continuation satisfies
-    `nativeGuard`; written exponent below 100000 in magnitude) the big-decimal fallback returns the bit pattern of the
-    correctly rounded binary64 (`±inf` when the reference says the value rounds to infinity), and the model never
-    faults (no out-of-range access to the 800-digit buffer, no loop runs out of its bound). -/
+    `nativeGuard`) the big-decimal fallback returns the bit pattern of the correctly rounded binary64 (`±inf` when the
+    reference says the value rounds to infinity), and the model never faults (no out-of-range access to the 800-digit
+    buffer, no loop runs out of its bound).  No bound on the written exponent: it is accumulated in 64 bits up to
+    `10^15`, and the decimal point is clamped to `±10^6`; only for a written exponent of `10^16` and more the token
+    has to be shorter than `2^32` bytes (so that the digit count cannot compensate the saturated exponent). -/
 theorem atofNative_correct (txt : List Nat) (t : Token) (ht : scanToken txt = some t)
-    (hg : nativeGuard t (txt.drop t.len) = true) (hexp : (expVal t.exp).natAbs < 100000) :
+    (hg : nativeGuard t (txt.drop t.len) = true)
+    (hlen : (expVal t.exp).natAbs < 10000000000000000 ∨ t.len < 2 ^ 32) :
     atofNative txt = (specBits t.neg (Sonic.Spec.Rne.round t.neg t.mantissa t.exponent), false) := by
-  have hset := setDecimal_token txt t ht hg hexp
+  obtain ⟨hset, hdp⟩ := setDecimal_token txt t ht hg hlen
   unfold atofNative
   rcases Nat.eq_zero_or_pos t.mantissa with h0 | h0
   · exact zero_case _ t hset h0
-  · exact nonzero_case _ t hset h0
+  · rcases hdp with hex | hcl
+    · exact nonzero_case _ t (hset.toSetOut hex) h0
+    · exact clamped_case _ t hset h0 hcl
 
 end Sonic.Proofs.Dec
